@@ -5,7 +5,8 @@ Everything random derives from the rng handed in (seeded from VERIF_SEED by lib/
 
 PAGE = 4096
 FRAME_SIZES = [0, 1, 1, 1, 2, 63, 64, 65, 127, 128, 129, 200]
-OTHER_TYPES = [0, 2, 3, 4, 5, 6, 0xffffffff]
+# non-available types, incl. values that alias MemAvailable (1) when only their low 8 / 16 / 24 bits are read
+OTHER_TYPES = [0, 2, 3, 4, 5, 6, 0xffffffff, 0x101, 0x10001, 0x1000001, 0xF0000001, 0x80000001, 0xFF01]
 
 
 def whole_frames(addr, length):
